@@ -492,6 +492,12 @@ theorem map_ok {β γ : Type} {x : Except Err β} {f : β → γ} {r : γ}
     simp only [Functor.map, Except.map, Except.ok.injEq] at h
     exact ⟨a, rfl, h.symm⟩
 
+theorem ite_err {β : Type} {c : Prop} [Decidable c] {e : Err} {y : Except Err β} {r : β}
+    (h : (if c then .error e else y) = .ok r) : y = .ok r := by
+  split at h
+  · cases h
+  · exact h
+
 theorem mkITier_name {n : String} {es : List (Iv Int)} {a b : Option Int} {t : ITier Int}
     (h : mkITier n es a b = .ok t) : t.name = n := by
   unfold mkITier at h
@@ -539,39 +545,360 @@ theorem any_edit_name {t t' : AnyTier Int} {o : Int} {rep : Report}
 theorem addTier_names {g g' : Tg Int} {t : AnyTier Int} {rep : Report}
     (h : g.addTier t none rep = .ok g') : g'.names = g.names ++ [t.name] := by
   unfold Tg.addTier at h
-  split at h
-  · cases h
-  · simp only at h
-    split at h
-    · cases h
-    · cases h; simp [Tg.names]
+  have h := ite_err h
+  simp only at h
+  have h := ite_err h
+  cases h; simp [Tg.names]
 
-theorem foldl_add_names (F : AnyTier Int → Except Err (AnyTier Int))
-    (hF : ∀ t t', F t = .ok t' → t'.name = t.name) (rep : Report) :
-    ∀ (ts : List (AnyTier Int)) (acc r : Tg Int),
-      ts.foldlM (fun acc t => do let t' ← F t; acc.addTier t' none rep) acc = .ok r →
-      r.names = acc.names ++ ts.map (·.name) := by
-  intro ts
-  induction ts with
+theorem foldl_names_gen {β : Type} (S : Tg Int → β → Except Err (Tg Int)) (nm : β → String)
+    (hS : ∀ acc x acc', S acc x = .ok acc' → acc'.names = acc.names ++ [nm x]) :
+    ∀ (xs : List β) (acc r : Tg Int), xs.foldlM S acc = .ok r → r.names = acc.names ++ xs.map nm := by
+  intro xs
+  induction xs with
   | nil => intro acc r h; cases h; simp
-  | cons t ts ih =>
+  | cons x xs ih =>
     intro acc r h
     rw [List.foldlM_cons] at h
     obtain ⟨acc', h1, h2⟩ := bind_ok h
-    obtain ⟨t', h3, h4⟩ := bind_ok h1
-    rw [ih acc' r h2, addTier_names h4, hF t t' h3]
+    rw [ih acc' r h2, hS acc x acc' h1]
     simp
 
 /-- `Textgrid.editTimestamps` keeps the tier names and their order -/
 theorem tg_shift_names (g g' : Tg Int) (o : Int) (rep : Report)
     (h : g.editTimestamps o rep = .ok g') : g'.names = g.names := by
-  have := foldl_add_names (fun t => if t.isEmpty then pure t else t.editTimestamps o rep)
+  unfold Tg.editTimestamps at h
+  have := foldl_names_gen _ (fun t : AnyTier Int => t.name)
     (by
-      intro t t' ht
-      split at ht
-      · cases ht; rfl
-      · exact any_edit_name ht) rep g.tiers (Tg.ofSpan g.lo g.hi) g' h
+      intro acc t acc' hs
+      simp only at hs
+      split at hs
+      · obtain ⟨t', h3, h4⟩ := bind_ok hs
+        cases h3
+        exact addTier_names h4
+      · obtain ⟨t', h3, h4⟩ := bind_ok hs
+        rw [addTier_names h4, any_edit_name h3]) g.tiers (Tg.ofSpan g.lo g.hi) g' h
   rw [this]
   simp [Tg.names, Tg.ofSpan]
+
+/-! ### appendTextgrid -/
+
+theorem getTier_name {g : Tg Int} {n : String} {t : AnyTier Int} (h : g.getTier n = .ok t) :
+    t.name = n := by
+  unfold Tg.getTier at h
+  split at h
+  · rename_i t' hf
+    cases h
+    have := List.find?_some hf
+    simpa using this
+  · cases h
+
+theorem new_name {t r : ITier Int} {nm : Option String} {es : Option (List (Iv Int))} {lo hi : Option Int}
+    (h : t.new nm es lo hi = .ok r) : r.name = nm.getD t.name := mkITier_name h
+
+theorem pnew_name {t r : PTier Int} {nm : Option String} {ps : Option (List (Pt Int))} {lo hi : Option Int}
+    (h : t.new nm ps lo hi = .ok r) : r.name = nm.getD t.name := mkPTier_name h
+
+theorem renew_name {t r : AnyTier Int} {lo hi : Option Int}
+    (h : t.renew none lo hi = .ok r) : r.name = t.name := by
+  cases t with
+  | I t => obtain ⟨a, ha, rfl⟩ := map_ok h; exact new_name ha
+  | P t => obtain ⟨a, ha, rfl⟩ := map_ok h; exact pnew_name ha
+
+theorem catTier_name {t u r : AnyTier Int} {lo hi : Option Int}
+    (h : Tg.catTier t u lo hi = .ok r) : r.name = t.name := by
+  cases t with
+  | I t =>
+    cases u with
+    | I u => obtain ⟨a, ha, rfl⟩ := map_ok h; exact new_name ha
+    | P u => cases h
+  | P t =>
+    cases u with
+    | I u => cases h
+    | P u => obtain ⟨a, ha, rfl⟩ := map_ok h; exact pnew_name ha
+
+theorem pyListInsert_nat {β : Type} (l : List β) (i : Nat) (x : β) :
+    pyListInsert l (i : Int) x = l.take i ++ x :: l.drop i := by
+  unfold pyListInsert
+  simp only
+  rw [if_neg (by omega : ¬ ((i : Int) < 0))]
+  by_cases h : (i : Int) > (l.length : Int)
+  · rw [if_pos h]
+    have : l.length ≤ i := by omega
+    simp [List.take_of_length_le this, List.drop_of_length_le this]
+  · rw [if_neg h]; simp
+
+/-- popping the (unique) name `n` and re-inserting it at its old index gives the old order -/
+theorem reinsert_names (l : List String) (n : String) (hn : l.Nodup) :
+    ∀ i, l.findIdx? (· == n) = some i →
+      (l.filter (· != n)).take i ++ n :: (l.filter (· != n)).drop i = l := by
+  induction l with
+  | nil => intro i hi; simp at hi
+  | cons x xs ih =>
+    intro i hi
+    obtain ⟨hx, hxs⟩ := List.nodup_cons.1 hn
+    rw [List.findIdx?_cons] at hi
+    by_cases hxn : x = n
+    · subst hxn
+      simp only [beq_self_eq_true, if_true, Option.some.injEq] at hi
+      subst hi
+      have : xs.filter (· != x) = xs := by
+        apply List.filter_eq_self.2
+        intro a ha
+        have : a ≠ x := fun h => hx (h ▸ ha)
+        simpa using this
+      simp [this]
+    · have hb : (x == n) = false := by simpa using hxn
+      simp only [hb] at hi
+      cases hj : xs.findIdx? (· == n) with
+      | none => simp [hj] at hi
+      | some j =>
+        simp only [hj, Option.map_some, Bool.false_eq_true, if_false, Option.some.injEq] at hi
+        subst hi
+        have hne : (x != n) = true := by simpa using hxn
+        simp only [List.filter_cons, hne, if_true, List.take_succ_cons, List.drop_succ_cons,
+          List.cons_append]
+        rw [ih hxs j hj]
+
+theorem replaceTier_names {g g' : Tg Int} {n : String} {t : AnyTier Int} {rep : Report}
+    (hn : g.names.Nodup) (ht : t.name = n) (h : g.replaceTier n t rep = .ok g') :
+    g'.names = g.names := by
+  unfold Tg.replaceTier at h
+  split at h
+  · cases h
+  · rename_i i hi
+    obtain ⟨g1, h1, h2⟩ := bind_ok h
+    unfold Tg.removeTier at h1
+    split at h1
+    · cases h1
+      unfold Tg.addTier at h2
+      have h2 := ite_err h2
+      simp only at h2
+      have h2 := ite_err h2
+      cases h2
+      unfold Tg.indexOf at hi
+      have := reinsert_names g.names n hn i hi
+      simp only [Tg.names, pyListInsert_nat, List.map_append, List.map_cons, List.map_take, List.map_drop,
+        ht] at this ⊢
+      rw [List.filter_map] at this
+      exact this
+    · cases h1
+
+/-- appending a name unless it is already there -/
+def addNew (acc : List String) (n : String) : List String := if acc.contains n then acc else acc ++ [n]
+
+theorem addNew_nodup {acc : List String} (n : String) (h : acc.Nodup) : (addNew acc n).Nodup := by
+  unfold addNew
+  split
+  · exact h
+  · rename_i hc
+    have : n ∉ acc := by simpa using hc
+    rw [List.nodup_append]
+    refine ⟨h, by simp, ?_⟩
+    intro a ha b hb
+    simp only [List.mem_singleton] at hb
+    subst hb
+    exact fun hab => this (hab ▸ ha)
+
+theorem foldl_addNew_old (L acc : List String) (h : ∀ n ∈ L, n ∈ acc) : L.foldl addNew acc = acc := by
+  induction L with
+  | nil => rfl
+  | cons x xs ih =>
+    have hx : acc.contains x = true := by simpa using h x (by simp)
+    rw [List.foldl_cons, addNew, if_pos hx]
+    exact ih (fun n hn => h n (List.mem_cons_of_mem _ hn))
+
+theorem foldl_addNew_new (L : List String) (hL : L.Nodup) :
+    ∀ acc : List String, (∀ n ∈ L, n ∉ acc) → L.foldl addNew acc = acc ++ L := by
+  induction L with
+  | nil => intro acc _; simp
+  | cons x xs ih =>
+    intro acc h
+    obtain ⟨hx, hxs⟩ := List.nodup_cons.1 hL
+    have hc : ¬ (acc.contains x = true) := by simpa using h x (by simp)
+    rw [List.foldl_cons, addNew, if_neg hc, ih hxs]
+    · simp
+    · intro n hn hm
+      rcases List.mem_append.1 hm with hm | hm
+      · exact h n (List.mem_cons_of_mem _ hn) hm
+      · simp only [List.mem_singleton] at hm
+        subst hm
+        exact hx hn
+
+theorem foldl_names_addNew (S : Tg Int → String → Except Err (Tg Int))
+    (hS : ∀ acc n acc', acc.names.Nodup → S acc n = .ok acc' → acc'.names = addNew acc.names n) :
+    ∀ (L : List String) (acc r : Tg Int), acc.names.Nodup → L.foldlM S acc = .ok r →
+      r.names = L.foldl addNew acc.names := by
+  intro L
+  induction L with
+  | nil => intro acc r _ h; cases h; rfl
+  | cons x xs ih =>
+    intro acc r hn h
+    rw [List.foldlM_cons] at h
+    obtain ⟨acc', h1, h2⟩ := bind_ok h
+    have e := hS acc x acc' hn h1
+    rw [ih acc' r (e ▸ addNew_nodup x hn) h2, e]
+    rfl
+
+theorem names_lemA (A B : List String) :
+    (A ++ B.filter (fun n => !A.contains n)).filter A.contains = A := by
+  rw [List.filter_append, List.filter_filter]
+  have h1 : A.filter A.contains = A := List.filter_eq_self.2 (by intro a ha; simpa using ha)
+  have h2 : B.filter (fun a => A.contains a && !A.contains a) = [] :=
+    List.filter_eq_nil_iff.2 (by intro a _; simp)
+  rw [h1, h2, List.append_nil]
+
+theorem names_lemB (A B : List String) :
+    (A ++ B.filter (fun n => !A.contains n)).filter B.contains =
+      A.filter B.contains ++ B.filter (fun n => !A.contains n) := by
+  rw [List.filter_append]
+  congr 1
+  apply List.filter_eq_self.2
+  intro a ha
+  simpa using (List.mem_filter.1 ha).1
+
+theorem names_lemC (A B : List String) :
+    (A ++ B.filter (fun n => !A.contains n)).filter (fun n => A.contains n && B.contains n) =
+      A.filter B.contains := by
+  rw [List.filter_append, List.filter_filter]
+  have h2 : B.filter (fun a => (A.contains a && B.contains a) && !A.contains a) = [] :=
+    List.filter_eq_nil_iff.2 (by intro a _; cases A.contains a <;> simp)
+  rw [h2, List.append_nil]
+  apply List.filter_congr
+  intro a ha
+  have : A.contains a = true := by simpa using ha
+  rw [this, Bool.true_and]
+
+theorem names_lemD (A B : List String) :
+    (A.filter B.contains).filter A.contains = A.filter B.contains := by
+  apply List.filter_eq_self.2
+  intro a ha
+  simpa using (List.mem_filter.1 ha).1
+
+theorem names_lemE (A B : List String) :
+    (A.filter B.contains).filter B.contains = A.filter B.contains := by
+  apply List.filter_eq_self.2
+  intro a ha
+  exact (List.mem_filter.1 ha).2
+
+theorem names_comb_nodup (A B : List String) (hA : A.Nodup) (hB : B.Nodup) :
+    (A ++ B.filter (fun n => !A.contains n)).Nodup := by
+  rw [List.nodup_append]
+  refine ⟨hA, hB.filter _, ?_⟩
+  intro a ha b hb hab
+  subst hab
+  have := (List.mem_filter.1 hb).2
+  simp [ha] at this
+
+theorem appendTg_names (g h r : Tg Int) (om : Bool) (hg : g.names.Nodup) (hh : h.names.Nodup)
+    (hr : g.appendTextgrid h om = .ok r) :
+    r.names = (if om then g.names.filter (h.names.contains ·)
+               else g.names ++ h.names.filter (fun n => !g.names.contains n)) := by
+  unfold Tg.appendTextgrid at hr
+  split at hr
+  · rename_i ghi hhi _ _
+    simp only at hr
+    obtain ⟨r1, h1, h2⟩ := bind_ok hr
+    -- first loop: the selected tiers of `g`, in order
+    have e1 := foldl_names_gen _ (fun n : String => n)
+      (by
+        intro acc n acc' hs
+        obtain ⟨t, ht, ha⟩ := bind_ok hs
+        rw [addTier_names ha, getTier_name ht]) _ _ _ h1
+    have hof : (Tg.ofSpan g.lo (some (ghi + hhi)) : Tg Int).names = [] := rfl
+    rw [hof, List.nil_append, List.map_id'] at e1
+    have hn1 : r1.names.Nodup := by
+      have hc := names_comb_nodup g.names h.names hg hh
+      rw [e1]
+      refine List.Pairwise.filter _ ?_
+      split
+      · exact hc.filter _
+      · exact hc
+    -- second loop: a matching tier is replaced in place, a new one is added at the end
+    have e2 := foldl_names_addNew _
+      (by
+        intro acc n acc' hn hs
+        obtain ⟨t, ht, hs⟩ := bind_ok hs
+        obtain ⟨t1, ht1, hs⟩ := bind_ok hs
+        obtain ⟨t2, ht2, hs⟩ := bind_ok hs
+        have hname : t2.name = n := by
+          rw [any_edit_name ht2, renew_name ht1, getTier_name ht]
+        unfold addNew
+        split at hs
+        · rename_i hc
+          obtain ⟨cur, hcur, hs⟩ := bind_ok hs
+          obtain ⟨nt, hnt, hs⟩ := bind_ok hs
+          rw [if_pos hc]
+          exact replaceTier_names hn (by rw [catTier_name hnt, getTier_name hcur]) hs
+        · rename_i hc
+          obtain ⟨nt, hnt, hs⟩ := bind_ok hs
+          rw [if_neg hc, addTier_names hs, renew_name hnt, hname]) _ r1 r hn1 h2
+    cases om with
+    | false =>
+      simp only [Bool.false_eq_true, if_false] at e1 e2 ⊢
+      rw [names_lemA] at e1
+      rw [e2, e1, names_lemB, List.foldl_append,
+        foldl_addNew_old _ _ (fun n hn => (List.mem_filter.1 hn).1)]
+      apply foldl_addNew_new _ (hh.filter _)
+      intro n hn
+      simpa using (List.mem_filter.1 hn).2
+    | true =>
+      simp only [if_true] at e1 e2 ⊢
+      rw [names_lemC, names_lemD] at e1
+      rw [names_lemC, names_lemE] at e2
+      rw [e2, e1]
+      exact foldl_addNew_old _ _ (fun n hn => hn)
+  · cases hr
+
+/-! ## non-vacuity: concrete well-formed tiers meet the hypotheses -/
+
+def exTier : ITier Int := ⟨"T", [⟨1, 3, "a"⟩, ⟨3, 6, "b"⟩, ⟨8, 9, "c"⟩], 0, 10⟩
+def exTier2 : ITier Int := ⟨"U", [⟨0, 2, "x"⟩, ⟨4, 5, "y"⟩], 0, 5⟩
+def exPTier : PTier Int := ⟨"P", [⟨1, "p"⟩, ⟨4, "q"⟩, ⟨4, "r"⟩], 0, 10⟩
+
+theorem exTier_wf : exTier.WF := by
+  refine ⟨?_, ?_, ?_, ?_, ?_, ?_⟩ <;> simp [exTier, Pos, Disj, Stripped] <;> decide
+
+theorem exTier2_wf : exTier2.WF := by
+  refine ⟨?_, ?_, ?_, ?_, ?_, ?_⟩ <;> simp [exTier2, Pos, Disj, Stripped] <;> decide
+
+theorem exPTier_wf : exPTier.WF := by
+  refine ⟨?_, ?_, ?_, ?_, ?_⟩ <;> simp [exPTier, Pt.le] <;> decide
+
+example : exTier.WF ∧ exTier2.WF ∧ (0 : Int) ≤ exTier2.lo ∧ (0 : Int) ≤ exTier.hi :=
+  ⟨exTier_wf, exTier2_wf, by decide, by decide⟩
+example : ∀ iv ∈ exTier.es, (0 : Int) ≤ 5 + iv.s ∧ 0 ≤ iv.s := by simp [exTier]
+
+-- evaluated illustrations (interpreter tests, not proofs)
+-- moved by +5: the span grows at the right end only
+#guard (exTier.editTimestamps 5 .silence).toOption.map (fun t => (t.es, t.lo, t.hi)) ==
+    some ([⟨6, 8, "a"⟩, ⟨8, 11, "b"⟩, ⟨13, 14, "c"⟩], 0, 14)
+-- moved by -4: "a" ends before 0 and is dropped, "b" crosses 0 and is clipped; the span never shrinks
+#guard (exTier.editTimestamps (-4) .warning).toOption.map (fun t => (t.es, t.lo, t.hi)) ==
+    some ([⟨0, 2, "b"⟩, ⟨4, 5, "c"⟩], 0, 10)
+-- everything dropped: an empty tier with the old span, not an error
+#guard (exTier.editTimestamps (-20) .silence).toOption.map (fun t => (t.es, t.lo, t.hi)) == some ([], 0, 10)
+-- `error` mode raises exactly when an entry leaves the old span
+#guard (match exTier.editTimestamps 5 .error with | .error .OutOfBounds => true | _ => false)
+#guard (exTier.editTimestamps 1 .error).toOption.map (fun t => (t.es, t.lo, t.hi)) ==
+    some ([⟨2, 4, "a"⟩, ⟨4, 7, "b"⟩, ⟨9, 10, "c"⟩], 0, 10)
+-- +5 then -5
+#guard ((exTier.editTimestamps 5 .silence).toOption.bind fun t1 =>
+    (t1.editTimestamps (-5) .silence).toOption.map (·.es)) == some exTier.es
+-- the counterexample to the unconditional round trip
+#guard ((cexTier.editTimestamps 10 .silence).toOption.bind fun t1 =>
+    (t1.editTimestamps (-10) .silence).toOption.map (·.es)) == some []
+-- appendTier
+#guard (exTier.appendTier exTier2).toOption.map (fun t => (t.name, t.es, t.lo, t.hi)) ==
+    some ("T", [⟨1, 3, "a"⟩, ⟨3, 6, "b"⟩, ⟨8, 9, "c"⟩, ⟨10, 12, "x"⟩, ⟨14, 15, "y"⟩], 0, 15)
+-- point tier: the point at 1 is dropped by -2
+#guard (exPTier.editTimestamps (-2) .silence).toOption.map (fun t => (t.ps, t.lo, t.hi)) ==
+    some ([⟨2, "q"⟩, ⟨2, "r"⟩], 0, 10)
+-- textgrid level
+#guard ((⟨[.I exTier, .P exPTier], some 0, some 10⟩ : Tg Int).editTimestamps 3 .silence).toOption.map (·.names) ==
+    some ["T", "P"]
+#guard ((⟨[.I exTier, .P exPTier], some 0, some 10⟩ : Tg Int).appendTextgrid
+    ⟨[.I exTier2, .I exTier], some 0, some 10⟩ false).toOption.map (·.names) == some ["T", "P", "U"]
+#guard ((⟨[.I exTier, .P exPTier], some 0, some 10⟩ : Tg Int).appendTextgrid
+    ⟨[.I exTier2, .I exTier], some 0, some 10⟩ true).toOption.map (·.names) == some ["T"]
 
 end C09
